@@ -351,6 +351,16 @@ Definition decon_ex (n:nat) (p:ppat) : option (option (N*ppat)) :=
 Definition decon_mu (n:nat) (p:ppat) : option (option (N*ppat)) :=
   bind (hnf n p) (fun h => Some (match h with PMu x q => Some (x, q) | _ => None end)).
 
+(** [deconstruct_nary_application] (proofs/kore.py:131-141; the @cache is a pure memo and is not modelled):
+    the application spine of a pattern, seen through notation *)
+Fixpoint decon_nary (n:nat) (p:ppat) {struct n} : option (ppat * list ppat) :=
+  match n with O => None | S n =>
+  match p with
+  | PInst q d => bind (py_inst n q d) (fun r => decon_nary n r)
+  | PApp l r => bind (decon_nary n l) (fun ha => Some (fst ha, snd ha ++ [r]))
+  | _ => Some (p, [])
+  end end.
+
 (** ================= BasicInterpreter rules (basic_interpreter.py:97-117) ================= *)
 (** inner None = AssertionError *)
 Definition basic_mp (n:nat) (left right:ppat) : option (option ppat) :=
